@@ -169,7 +169,7 @@ fn make_orders(h: &Hist, prng: &mut Prng, max_orders: usize, exhaustive_limit: u
 	let mut guard = 0;
 	while orders.len() < target && guard < 10 * max_orders {
 		guard += 1;
-		match prng.below(6) {
+		match prng.below(8) {
 			0 => {
 				let p = random_parent_first(h, prng);
 				orders.push(Order {
@@ -223,6 +223,44 @@ fn make_orders(h: &Hist, prng: &mut Prng, max_orders: usize, exhaustive_limit: u
 				}
 				orders.push(Order {
 					class: "parent_first_with_duplicates".into(),
+					steps,
+				});
+			}
+			6 => {
+				// children strictly before parents, and every orphan handed over more than once (several peers
+				// relay the same block) before its parent arrives
+				let mut steps: Vec<Step> = batches.iter().map(|b| Step::HeaderBatch(b.clone())).collect();
+				let mut seen: Vec<usize> = vec![];
+				for i in (0..n).rev() {
+					steps.push(Step::Block(i));
+					seen.push(i);
+					for _ in 0..prng.below(3) {
+						// the block just delivered again, or an earlier one that is still waiting for its parent
+						let j = if prng.bool() { i } else { *prng.pick(&seen) };
+						steps.push(Step::Block(j));
+					}
+				}
+				orders.push(Order {
+					class: "headers_then_children_before_parents_with_duplicate_orphans".into(),
+					steps,
+				});
+			}
+			7 => {
+				// headers known first (the statement's premise: a body whose parent HEADER is unknown cannot even be
+				// judged), then bodies in any order, each possibly repeated while it may still be an orphan
+				let mut bp: Vec<usize> = (0..n).collect();
+				prng.shuffle(&mut bp);
+				let mut steps: Vec<Step> = batches.iter().map(|b| Step::HeaderBatch(b.clone())).collect();
+				for (k, &i) in bp.iter().enumerate() {
+					steps.push(Step::Block(i));
+					if prng.chance(1, 2) {
+						steps.push(Step::Block(bp[prng.usize_below(k + 1)]));
+					}
+				}
+				// whatever the orphan pool could not connect is delivered once more, parent-first
+				steps.extend(random_parent_first(h, prng).into_iter().map(Step::Block));
+				orders.push(Order {
+					class: "header_batches_then_shuffled_bodies_with_duplicates".into(),
 					steps,
 				});
 			}
